@@ -668,6 +668,10 @@ public:
 	[[nodiscard]] std::optional<CMsgPackReadBinaryScope<TReader>> OpenBinaryScope(size_t)
 	{
 		CheckEnd();
+		// A value of another type is left unread (the caller falls back to an array scope, which applies the mismatched types policy once)
+		if (mMsgPackReader->ReadValueType() != ValueType::BinaryArray) {
+			return std::nullopt;
+		}
 		size_t sz = 0;
 		const bool result = mMsgPackReader->ReadBinarySize(sz);
 		++mIndex;
@@ -799,6 +803,10 @@ public:
 	{
 		if (FindValueByKey(key))
 		{
+			// A value of another type is left unread under its key (the caller falls back to an array scope, which applies the mismatched types policy once)
+			if (mMsgPackReader->ReadValueType() != ValueType::BinaryArray) {
+				return std::nullopt;
+			}
 			if (size_t sz = 0; mMsgPackReader->ReadBinarySize(sz)) {
 				return std::make_optional<CMsgPackReadBinaryScope<TReader>>(sz, mMsgPackReader, GetContext(), this);
 			}
@@ -944,6 +952,10 @@ public:
 
 	[[nodiscard]] std::optional<CMsgPackReadBinaryScope<IMsgPackReader>> OpenBinaryScope(size_t) const
 	{
+		// A value of another type is left unread (the caller falls back to an array scope, which applies the mismatched types policy once)
+		if (mMsgPackReader->ReadValueType() != ValueType::BinaryArray) {
+			return std::nullopt;
+		}
 		if (size_t sz = 0; mMsgPackReader->ReadBinarySize(sz)) {
 			return std::make_optional<CMsgPackReadBinaryScope<IMsgPackReader>>(sz, mMsgPackReader, GetContext());
 		}
